@@ -131,6 +131,7 @@ struct Obs {
     refused_events: u64,
     refused_target_intact: bool,
     injected_msg_class: String,
+    same_thread_again: String,
 }
 
 /// the body that runs on a worker thread, under catch_unwind
@@ -377,12 +378,26 @@ pub fn run(ctx: &Ctx) {
         let h = std::thread::spawn(move || {
             REFUSE_IMAGE.with(|c| *c.borrow_mut() = ri);
             let mut rng = Rng::new(seed ^ hash64(s2.mix.wrapping_mul(77) ^ 0xC05));
-            let mut obs = Obs { refused_events: 0, refused_target_intact: true, injected_msg_class: String::new() };
+            let mut obs = Obs { refused_events: 0, refused_target_intact: true, injected_msg_class: String::new(), same_thread_again: String::new() };
             let (r, msgs) = panicobs::observe(|| body(&pool2, &s2, &mut rng, &mut obs));
             ip::disarm_all();
             if let Err(m) = &r {
                 obs.injected_msg_class = panicobs::classify(m).to_string();
             }
+            // "afterwards any thread" includes this one: the thread whose scope just unwound asks for both guard kinds again
+            let again = std::panic::catch_unwind(|| {
+                let i = InjectorPP::new();
+                drop(i);
+                let p = InjectorPP::prevent();
+                let a = p.is_active();
+                drop(p);
+                a
+            });
+            obs.same_thread_again = match again {
+                Ok(true) => String::new(),
+                Ok(false) => "preventer not active".into(),
+                Err(p) => format!("panicked: {}", panicobs::payload_msg(&p)),
+            };
             (r.is_ok(), r.err().unwrap_or_default(), msgs, obs)
         });
         let (ok, msg, msgs, obs) = match h.join() {
@@ -495,6 +510,10 @@ pub fn run(ctx: &Ctx) {
             } else if sig.is_empty() {
                 sig = "trampoline-left-mapped-after-unwind".into();
             }
+        }
+        if sig.is_empty() && !obs.same_thread_again.is_empty() {
+            sig = "the-thread-whose-scope-unwound-cannot-get-a-guard-again".into();
+            d = d.s("same_thread", &obs.same_thread_again);
         }
         if sig.is_empty() {
             match &waiter_verdict {
